@@ -180,6 +180,12 @@ var scenarios = []scenario{
 		s.opRename(a, "x", s.root(), "g3") // stale source directory
 		s.opRename(b, "x", a, "y")         // live and stale handle of one number
 		s.opRename(a, "x", b, "y")
+		s.mk("create", b, "x") // ... and with both names present (an existing target is relocked and revalidated)
+		s.mk("create", b, "y")
+		s.opRename(b, "x", a, "y")
+		s.opRename(a, "x", b, "y")
+		s.opLookup(b, "x")
+		s.opLookup(b, "y")
 		s.opReaddir(a, 0, 1000)
 		s.opRestart()
 		s.opGetattr(a)
